@@ -21,7 +21,13 @@ func runClientScenarioAs(t *testing.T, idx int, kind string, sc clientScenario, 
 	var buf bytes.Buffer
 	em2 := &Emitter{w: bufio.NewWriter(&buf)}
 	em.Marker("begin", idx)
+	wd.mu.Lock()
+	wdOuter, wdOuterCtor = em, ctor
+	wd.mu.Unlock()
 	runClientScenario(t, idx, kind, sc, em2)
+	wd.mu.Lock()
+	wdOuter, wdOuterCtor = nil, ""
+	wd.mu.Unlock()
 	em2.mu.Lock()
 	em2.w.Flush()
 	em2.mu.Unlock()
@@ -88,6 +94,13 @@ func sharded(t *testing.T, testName string, nShards int) (int, int, bool) {
 				// watchdog can misfire: the scenario is re-run alone, one at a time; only if it fails alone too is it
 				// reported, otherwise its record is kept and the shard resumes after it.
 				idx := lastOpenBegin(outs[i])
+				selfReported := false
+				if ee, ok := err.(*exec.ExitError); ok && ee.ExitCode() == 3 && idx < from {
+					// the watchdog reported a wedge itself: record and end marker are written, then the process left
+					if w := lastWedged(outs[i]); w >= from {
+						idx, selfReported = w, true
+					}
+				}
 				if idx < from {
 					errs[i] = fmt.Errorf("shard %d: %v: %s", i, err, tail(string(out), 1500))
 					return
@@ -109,10 +122,16 @@ func sharded(t *testing.T, testName string, nShards int) (int, int, bool) {
 					os.Remove(retry)
 				}
 				solo.Unlock()
-				if !ok {
+				if ok && selfReported {
+					// alone the scenario runs through: the wedge was a misfire under load; its record is replaced (done above
+					// by appending: drop the wedge record)
+					dropWedged(outs[i], idx)
+				}
+				if !ok && !selfReported {
 					errs[i] = fmt.Errorf("shard %d: scenario %d fails when run alone too: %v: %s", i, idx, err, tail(string(out), 1500))
 					return
 				}
+				// (a wedge that repeats alone keeps its record - a failing input - and the shard goes on)
 				from = idx + 1
 			}
 		}(i)
@@ -242,4 +261,49 @@ func emitFree(em *Emitter, base int, kind string, desc map[string]any, tags []st
 		em.Emit(Rec{Idx: idx, Kind: kind, Desc: desc, Tags: append(append([]string{}, tags...), fmt.Sprintf("record=%d/%d", j+1, nrec)),
 			Coq: fmt.Sprintf("C05Free %d %s %s", n, coqList(terms), coqList(ps))})
 	}
+}
+
+// lastWedged returns the index of the last wedge record of an output file (-1 if none).
+func lastWedged(path string) int {
+	b, err := os.ReadFile(path)
+	if err != nil {
+		return -1
+	}
+	last := -1
+	sc := bufio.NewScanner(bytes.NewReader(b))
+	sc.Buffer(make([]byte, 1<<20), 64<<20)
+	for sc.Scan() {
+		line := sc.Bytes()
+		if bytes.HasPrefix(line, []byte(`{"marker"`)) || !bytes.Contains(line, []byte(`-wedged"`)) {
+			continue
+		}
+		var r Rec
+		if json.Unmarshal(line, &r) == nil {
+			last = r.Idx
+		}
+	}
+	return last
+}
+
+// dropWedged removes the wedge record of scenario idx from an output file.
+func dropWedged(path string, idx int) {
+	b, err := os.ReadFile(path)
+	if err != nil {
+		return
+	}
+	var out bytes.Buffer
+	sc := bufio.NewScanner(bytes.NewReader(b))
+	sc.Buffer(make([]byte, 1<<20), 64<<20)
+	for sc.Scan() {
+		line := sc.Bytes()
+		if !bytes.HasPrefix(line, []byte(`{"marker"`)) && bytes.Contains(line, []byte(`-wedged"`)) {
+			var r Rec
+			if json.Unmarshal(line, &r) == nil && r.Idx == idx {
+				continue
+			}
+		}
+		out.Write(line)
+		out.WriteByte('\n')
+	}
+	os.WriteFile(path, out.Bytes(), 0o644)
 }
